@@ -134,6 +134,14 @@ Section NtopProofs.
     last_match anc = Some c ->
     recover_dst ntop 1 true [h; p; f; s] anc = [FS (ntop (firstn 16 (cm_data c))); p; f; s].
   Proof. intros H. rewrite tftp_server_address, H. reflexivity. Qed.
+  (* whatever the bound socket reports as its host - "::" for every spelling of the wildcard address, or a
+     specific address - plays no role once a packet-info message is present: only the tail of the tuple
+     (port, flowinfo, scope id) is taken from it *)
+  Corollary tftp_server_address_any_bind h1 h2 tail anc c :
+    last_match anc = Some c ->
+    recover_dst ntop 1 true (h1 :: tail) anc = FS (ntop (firstn 16 (cm_data c))) :: tail /\
+    recover_dst ntop 1 true (h1 :: tail) anc = recover_dst ntop 1 true (h2 :: tail) anc.
+  Proof. intros H. rewrite !tftp_server_address, H. split; reflexivity. Qed.
 End NtopProofs.
 
 (* ---------- servers ---------- *)
